@@ -5,10 +5,10 @@ import json, os, re, shutil, subprocess, sys
 ROOT = os.path.dirname(os.path.dirname(os.path.abspath(__file__)))
 seeds = sorted(d for d in os.listdir(os.path.join(ROOT, "seeded")) if os.path.isdir(os.path.join(ROOT, "seeded", d)))
 only = sys.argv[1:]
-rows = []
-for s in seeds:
-    if only and s not in only:
-        continue
+from concurrent.futures import ThreadPoolExecutor
+
+
+def one(s):
     prop = s.split("-")[0]
     scratch = "/var/tmp/vx-matrix-%s" % s
     if os.path.isdir(scratch):
@@ -17,21 +17,29 @@ for s in seeds:
     subprocess.run(["rsync", "-a", "--exclude", "target", "--exclude", ".git", "/repo/", scratch + "/"], check=True)
     ap = subprocess.run(["git", "apply", os.path.join(ROOT, "seeded", s, "patch.diff")], cwd=scratch, stdout=subprocess.PIPE, stderr=subprocess.PIPE, text=True)
     if ap.returncode != 0:
-        rows.append((s, prop, "patch does not apply", [], ""))
         shutil.rmtree(scratch)
-        continue
-    env = dict(os.environ, VX_REPO=scratch, VX_SCRATCH_OUT=scratch + "/out")
+        return (s, prop, "patch does not apply", [], "")
+    # VX_SCRATCH_ID gives every scratch copy its own build directories, so that several can be checked at once
+    env = dict(os.environ, VX_REPO=scratch, VX_SCRATCH_OUT=scratch + "/out", VX_SCRATCH_ID=s)
     p = subprocess.run([os.path.join(ROOT, "vx"), "check", prop], env=env, stdout=subprocess.PIPE, stderr=subprocess.PIPE, text=True)
     layers = sorted(set(re.findall(r"violated: \[(E\d)/", p.stderr)))
     first = next((l.strip() for l in p.stderr.splitlines() if "violated:" in l), "")
     nofail = "no-failing-input-found" in p.stdout and not any("VIOLATION" in l and "no-failing-input-found" not in l for l in p.stdout.splitlines())
-    rows.append((s, prop, {0: "MISSED", 1: "detected", 2: "undecided"}.get(p.returncode, "exit %d" % p.returncode), layers, first[:220]))
+    row = (s, prop, {0: "MISSED", 1: "detected", 2: "undecided"}.get(p.returncode, "exit %d" % p.returncode), layers, first[:220])
     mp = os.path.join(ROOT, "seeded", s, "meta.json")
     meta = json.load(open(mp)) if os.path.exists(mp) else {"seed": s, "property": prop}
     meta["check_result"] = {"cmd": "./vx check %s (on a scratch copy of /repo with patch.diff applied)" % prop, "exit": p.returncode, "detected_by": layers, "first_violation": first[:400], "concrete_failing_input": not nofail}
     json.dump(meta, open(mp, "w"), indent=1)
     shutil.rmtree(scratch)
-    print(s, rows[-1][2], layers, flush=True)
+    for d in ("scratch-" + s, "units-scratch-" + s):
+        shutil.rmtree(os.path.join(ROOT, "build", d), ignore_errors=True)
+    print(s, row[2], layers, flush=True)
+    return row
+
+
+todo = [s for s in seeds if not only or s in only]
+with ThreadPoolExecutor(max_workers=int(os.environ.get("VX_JOBS", "4"))) as ex:
+    rows = list(ex.map(one, todo))
 with open(os.path.join(ROOT, "seeded", "MATRIX.md"), "w") as f:
     f.write("# Seeded changes vs. checks\n\nEach change was produced by a sub-agent that saw only the property text, confirmed in a scratch worktree (compiles, the repository's 40 tests pass, its demonstration fails with the change and passes without), and then run through `./vx check <property>`.\n\n| seed | property | result | reported by | first violated obligation |\n|---|---|---|---|---|\n")
     for s, prop, res, layers, first in rows:
